@@ -391,12 +391,21 @@ impl<'a> JsonP<'a> {
                         b't' => out.push(b'\t'),
                         b'u' => {
                             let h = std::str::from_utf8(self.s.get(self.i..self.i + 4)?).ok()?;
+                            if !h.bytes().all(|c| c.is_ascii_hexdigit()) {
+                                return None;
+                            }
                             let mut cp = u32::from_str_radix(h, 16).ok()?;
                             self.i += 4;
                             if (0xd800..0xdc00).contains(&cp) {
                                 self.lit(b"\\u")?;
                                 let h2 = std::str::from_utf8(self.s.get(self.i..self.i + 4)?).ok()?;
+                                if !h2.bytes().all(|c| c.is_ascii_hexdigit()) {
+                                    return None;
+                                }
                                 let lo = u32::from_str_radix(h2, 16).ok()?;
+                                if !(0xdc00..0xe000).contains(&lo) {
+                                    return None;
+                                }
                                 self.i += 4;
                                 cp = 0x10000 + ((cp - 0xd800) << 10) + (lo.checked_sub(0xdc00)?);
                             }
@@ -486,6 +495,9 @@ impl<'a> JsonP<'a> {
                     return None;
                 }
                 let t = std::str::from_utf8(&self.s[st..self.i]).ok()?;
+                if t == "-0" {
+                    return None; // serde_json reads it as the float -0.0: outside the subset
+                }
                 Some(format!("(JNum ({t})%Z)"))
             }
             _ => None,
@@ -1020,9 +1032,6 @@ pub fn to_case(s: &Script) -> Case {
     // tokens of the other direction are not part of this script
     let mut s2 = s.clone();
     s2.toks = s.toks.iter().filter(|t| t.is_c2s().map(|d| d == c2s).unwrap_or(true)).cloned().collect();
-    if !c2s {
-        s2.toks.retain(|t| !matches!(t, Tok::Raw(_)));
-    }
     let s = &s2;
     let out = match (&s.codec, c2s) {
         (Codec::Bincode, true) => framed_run!(CM, RS, Bincode, s, now),
@@ -1197,8 +1206,11 @@ pub fn gen(rng: &mut Rng) -> Script {
             toks.push(Tok::Recv);
         }
     }
-    if framed && c2s && codec == Codec::Json && rng.chance(1, 3) {
-        toks.insert(rng.below(toks.len() as u64 + 1) as usize, Tok::Raw(hand_json(rng)));
+    if framed && codec == Codec::Json && rng.chance(1, 2) {
+        for _ in 0..rng.range(1, 3) {
+            let t = if c2s { json_text_case(rng) } else { json_response_text(rng) };
+            toks.insert(rng.below(toks.len() as u64 + 1) as usize, Tok::Raw(t));
+        }
     }
     if framed && c2s && codec == Codec::Bincode && rng.chance(1, 5) {
         toks.insert(rng.below(toks.len() as u64 + 1) as usize, Tok::Raw(hand_bincode(rng)));
@@ -1230,6 +1242,161 @@ pub fn gen(rng: &mut Rng) -> Script {
     // clean end-of-stream, which C15 accepts and C16 records as a known finding)
     let cut = if framed && rng.chance(1, 6) { *rng.pick(&[1usize, 2, 3, 4, 5, 6, 9, 17]) } else { 0 };
     Script { codec, rd, wr, cut, toks }
+}
+
+/// Whitespace (space, tab, LF, CR) inserted at random token boundaries of a JSON text.
+fn sprinkle_ws(rng: &mut Rng, text: &[u8]) -> Vec<u8> {
+    let ws = |rng: &mut Rng, out: &mut Vec<u8>| {
+        for _ in 0..rng.below(3) {
+            out.push(*rng.pick(&[b' ', b'\t', b'\n', b'\r']));
+        }
+    };
+    let mut out = vec![];
+    let mut in_str = false;
+    let mut esc = false;
+    ws(rng, &mut out);
+    for &c in text {
+        if in_str {
+            out.push(c);
+            if esc {
+                esc = false;
+            } else if c == b'\\' {
+                esc = true;
+            } else if c == b'"' {
+                in_str = false;
+                ws(rng, &mut out);
+            }
+            continue;
+        }
+        match c {
+            b'"' => {
+                in_str = true;
+                out.push(c);
+            }
+            b'{' | b'}' | b'[' | b']' | b':' | b',' => {
+                ws(rng, &mut out);
+                out.push(c);
+                ws(rng, &mut out);
+            }
+            _ => out.push(c),
+        }
+    }
+    ws(rng, &mut out);
+    out
+}
+
+/// Texts for the differential test of the two PARSERS (serde_json vs JsonText.json_parse) on client
+/// messages: real serde_json output with whitespace, pretty-printed output, escapes, boundary
+/// numbers, unknown members with nested values, and malformed texts both must reject.
+/// Not generated (outside the modelled subset, see JsonText.v): fractions/exponents, "-0", invalid
+/// UTF-8, nesting deeper than 100, lone surrogates inside IGNORED members.
+fn json_text_case(rng: &mut Rng) -> Vec<u8> {
+    vclock::reset();
+    let now = Instant::now();
+    let real = |rng: &mut Rng| -> ClientMessage<String> {
+        let t = if rng.chance(2, 3) {
+            Tok::Req { id: gen_id(rng), secs: *rng.pick(&[0u64, 10, 251, 1 << 40]), nanos: *rng.pick(&[0u32, 7, 999_999_999]), tr: gen_tr(rng), body: gen_body(rng, false) }
+        } else {
+            Tok::Cancel { id: gen_id(rng), tr: gen_tr(rng) }
+        };
+        cm_of_tok(&t, now).unwrap()
+    };
+    let id = gen_id(rng);
+    match rng.below(12) {
+        0 | 1 => {
+            let v = serde_json::to_vec(&real(rng)).unwrap();
+            sprinkle_ws(rng, &v)
+        }
+        2 => serde_json::to_vec_pretty(&real(rng)).unwrap(),
+        3 => {
+            // escapes in a known string member: \uXXXX (ASCII, Latin-1, BMP), a surrogate pair, \/ \b \f
+            let body = *rng.pick(&[
+                r#"\u0041\u00e9\u20ac"#, r#"\ud83e\udd80 crab"#, r#"a\/b\b\f\n\r\t\"\\"#, r#"\u0000\u001f\u007f"#, r#"\uD83E\uDD80"#,
+            ]);
+            format!(r#"{{"Request":{{"context":{{"deadline":{{"secs":1,"nanos":2}},"trace_context":{TRACE_J}}},"id":{id},"message":"{body}"}}}}"#).into_bytes()
+        }
+        4 => {
+            // must be rejected: lone / reversed surrogates, bad escapes, raw control character
+            let body = *rng.pick(&[r#"\ud800"#, r#"\udc00"#, r#"\ud800\u0041"#, r#"\ud800x"#, r#"\x41"#, r#"\u12"#, r#"\u00zz"#, "a\u{1}b"]);
+            format!(r#"{{"Request":{{"context":{{"trace_context":{TRACE_J}}},"id":{id},"message":"{body}"}}}}"#).into_bytes()
+        }
+        5 => {
+            // numbers at the u64 / i64 boundaries in a u64 member
+            let n = *rng.pick(&["0", "18446744073709551615", "18446744073709551616", "-1", "9223372036854775807", "9223372036854775808", "-9223372036854775808", "00", "01", "1e3", "+1"]);
+            let n = if n == "1e3" { "13" } else { n }; // exponents are outside the subset
+            format!(r#"{{"Cancel":{{"request_id":{n}}}}}"#).into_bytes()
+        }
+        6 => {
+            // unknown members with every kind of value, also duplicated and before the known ones
+            let extra = *rng.pick(&[
+                r#""zzz":null"#, r#""zzz":[1,-2,[],{},{"a":[true,false,null]}]"#, r#""zzz":"s\u00e9","yyy":-9223372036854775808"#,
+                r#""zzz":123456789012345678901234567890"#, r#""zzz":1,"zzz":2"#, r#""":{"":""}"#,
+            ]);
+            sprinkle_ws(rng, format!(r#"{{"Cancel":{{{extra},"request_id":{id},"trace_context":{TRACE_J}}}}}"#).as_bytes())
+        }
+        7 => {
+            // members reordered at every level, deadline nanos that carry
+            sprinkle_ws(rng, format!(r#"{{"Request":{{"message":"m","id":{id},"context":{{"trace_context":{{"sampling_decision":"Unsampled","span_id":9,"trace_id":[5,0,0,0,0,0,0,0,0,0,0,0,0,0,0,255]}},"deadline":{{"nanos":1999999999,"secs":3}}}}}}}}"#).as_bytes())
+        }
+        8 => {
+            // truncation of a valid text at a random position
+            let full = serde_json::to_vec(&real(rng)).unwrap();
+            let k = rng.below(full.len() as u64) as usize;
+            full[..k].to_vec()
+        }
+        9 => {
+            // structural damage
+            let t = *rng.pick(&[
+                r#"{"Cancel":{"request_id":1}} x"#, r#"{"Cancel":{"request_id" 1}}"#, r#"{"Cancel":{"request_id":1,}}"#,
+                r#"{Cancel:{"request_id":1}}"#, r#"{'Cancel':{'request_id':1}}"#, r#"{"Cancel":{"request_id":1}"#,
+                r#"{"Cancel":[1]}"#, r#"[]"#, r#""Cancel""#, r#"null"#, r#"{"Cancel":{"request_id":1}}{"Cancel":{"request_id":2}}"#,
+                r#"{"Cancel":{"request_id":tru}}"#, r#"{"Cancel":{"request_id":"1"}}"#, r#""#, r#"   "#,
+                r#"{"Cancel":{"request_id":1,"trace_context":{"trace_id":[256,0,0,0,0,0,0,0,0,0,0,0,0,0,0,0],"span_id":2,"sampling_decision":"Sampled"}}}"#,
+                r#"{"Cancel":{"request_id":1,"trace_context":{"trace_id":[1,0,0,0,0,0,0,0,0,0,0,0,0,0,0,0],"span_id":2,"sampling_decision":"Maybe"}}}"#,
+                r#"{"Cancel":{"request_id":1,"trace_context":{"trace_id":[1,0,0,0,0,0,0,0,0,0,0,0,0,0,0,0],"span_id":2,"sampling_decision":{"Sampled":null}}}}"#,
+            ]);
+            t.as_bytes().to_vec()
+        }
+        _ => hand_json(rng),
+    }
+}
+
+const TRACE_J: &str = r#"{"trace_id":[7,0,0,0,0,0,0,0,0,0,0,0,0,0,0,0],"span_id":3,"sampling_decision":"Sampled"}"#;
+
+/// The same for responses (server -> client direction).
+fn json_response_text(rng: &mut Rng) -> Vec<u8> {
+    let id = gen_id(rng);
+    let real = |rng: &mut Rng| -> Response<String> {
+        let t = if rng.chance(1, 2) {
+            Tok::Ok { id: gen_id(rng), body: gen_body(rng, false) }
+        } else {
+            Tok::Err { id: gen_id(rng), kind: rng.below(kinds().len() as u64) as usize, detail: gen_body(rng, false) }
+        };
+        resp_of_tok(&t).unwrap()
+    };
+    match rng.below(8) {
+        0 | 1 => {
+            let v = serde_json::to_vec(&real(rng)).unwrap();
+            sprinkle_ws(rng, &v)
+        }
+        2 => serde_json::to_vec_pretty(&real(rng)).unwrap(),
+        3 => {
+            let k = *rng.pick(&["0", "17", "18", "4294967295", "4294967296", "-1"]);
+            sprinkle_ws(rng, format!(r#"{{"message":{{"Err":{{"detail":"d\u00e9","kind":{k},"more":[{{}}]}}}},"request_id":{id}}}"#).as_bytes())
+        }
+        4 => format!(r#"{{"request_id":{id},"message":{{"Ok":"a","Err":{{"kind":1,"detail":""}}}}}}"#).into_bytes(),
+        5 => format!(r#"{{"request_id":{id},"message":{{"Ok":"\ud83e\udd80\/"}},"extra":null}}"#).into_bytes(),
+        6 => {
+            let full = serde_json::to_vec(&real(rng)).unwrap();
+            let k = rng.below(full.len() as u64) as usize;
+            full[..k].to_vec()
+        }
+        _ => rng.pick(&[
+            r#"{"request_id":1}"#, r#"{"message":{"Ok":"x"}}"#, r#"{"request_id":1,"message":"Ok"}"#,
+            r#"{"request_id":1,"message":{"Ok":1}}"#, r#"{"request_id":1,"request_id":1,"message":{"Ok":"x"}}"#,
+            r#"{"request_id":1,"message":{"Nope":"x"}}"#, r#"{"request_id":1,"message":{}}"#,
+        ]).as_bytes().to_vec(),
+    }
 }
 
 /// Hand-written JSON client messages: optional fields omitted, members reordered, unknown
